@@ -103,7 +103,7 @@ func withReopens(rt *rapid.T, ops []hist.Op) []hist.Op {
 }
 
 func TestRestartRandomMem(t *testing.T) {
-	pbt.Check(t, 600, 30000, func(rt *rapid.T) {
+	pbt.Check(t, 600, 18000, func(rt *rapid.T) {
 		c := RestartCase{Store: "mem", Ops: withReopens(rt, hist.GenHistory(rt, 20, true))}
 		if pbt.WantSample(rt) {
 			pbt.Sample(rt, histrun.Text(c.Ops))
@@ -113,7 +113,7 @@ func TestRestartRandomMem(t *testing.T) {
 }
 
 func TestRestartRandomBadger(t *testing.T) {
-	pbt.Check(t, 60, 6000, func(rt *rapid.T) {
+	pbt.Check(t, 60, 3500, func(rt *rapid.T) {
 		c := RestartCase{Store: "badger", Ops: withReopens(rt, hist.GenHistory(rt, 12, false))}
 		pbt.Current(rt, c)
 		if pbt.WantSample(rt) {
@@ -433,7 +433,7 @@ func TestReplay(t *testing.T) {
 }
 
 func TestCrashRandom(t *testing.T) {
-	pbt.Check(t, 2500, 200000, func(rt *rapid.T) {
+	pbt.Check(t, 2500, 120000, func(rt *rapid.T) {
 		ops := hist.GenHistory(rt, 14, false)
 		c := CrashCase{Ops: ops}
 		if pbt.WantSample(rt) {
